@@ -33,7 +33,7 @@ def shipped(name):
 CASES = ["A:w%d" % w for w in (0, 2, 4, 6)] + ["A:len", "B:w0", "B:len", "mex:w0", "mex:w17", "mex:len", "nimitz:w30", "mex:long",
          "A:tail", "mex:tail", "A:z0", "A:z3", "B:z0", "mex:z16"]
 HARNESSES = [
-    {"fn": "h_fields", "cases": CASES, "quick_cases": ["A:w2", "A:len", "mex:w17", "mex:long", "B:len", "A:tail", "A:z0", "mex:z16"], "timeout": {"quick": 120, "thorough": 400}},
+    {"fn": "h_fields", "cases": CASES, "quick_cases": ["A:w2", "A:len", "mex:len", "mex:w17", "mex:long", "B:len", "A:tail", "A:z0", "mex:z16"], "timeout": {"quick": 120, "thorough": 400}},
     {"fn": "h_two_tables", "cases": ["AB", "BA"], "timeout": {"quick": 90, "thorough": 300}},
 ]
 BOUNDS = {"tables": "two synthetic field tables (sizes 1,2,1,2,2,1 with a non-ASCII name, and 2,1,1,2,1 with a repeated entry; both accepted header layouts) and both shipped tables",
